@@ -205,6 +205,14 @@ def templates(col, lang, depths, flat_lines, deep_all=False):
         col.eval({"lang": lang, "bytes_hex": data.hex(), "entry": ["scan_path", "rel-file", "root-dot"]}, nontrivial=False, labels=["class:tiny-bytes", f"lang:{lang}"])
 
 
+def atheris_campaign(col, seed, runs, seeded):
+    """Coverage-guided engine (atheris / libFuzzer) with this property's oracle inside the target; findings are
+    re-validated through run_case. Skipped with an 'inconclusive' note when atheris cannot be installed offline."""
+    from vf.fuzz import campaign
+
+    campaign.run(col, ID, seed, runs, seeded)
+
+
 def plan(tier, seed):
     quick = tier == "quick"
     per = 420 if quick else 7000
@@ -214,4 +222,6 @@ def plan(tier, seed):
         for k in range(2 if quick else 4):
             jobs.append(("gen", {"seed": shard_seed(seed, ID, f"{lang}{k}"), "n": per // (2 if quick else 4), "lang": lang, "subprocess_every": 60 if quick else 120}))
         jobs.append(("templates", {"lang": lang, "depths": depths, "flat_lines": 1500 if quick else 5000, "deep_all": not quick}))
+    for k, seeded in enumerate([False, True] if quick else [False, True, False, True, False, True]):
+        jobs.append(("atheris_campaign", {"seed": shard_seed(seed, ID, f"fz{k}"), "runs": 2000 if quick else 150000, "seeded": seeded}))
     return jobs
